@@ -188,7 +188,14 @@ def run(rep):
     masserts = []
     if v.mir:
         cache_ = {}
-        for s_ in panic.sites_of(F, v.name):
+        # validate's own code: the function, its closures, and the helpers in rule.rs it calls (the solver's sites are C03's)
+        own_fns = [v.name]
+        try:
+            reach = panic.CallGraph(F).reach([v.name])
+            own_fns += sorted(g for g in reach if g != v.name and (g.startswith("rule::") or g.startswith(v.name + "::")) and F.fns[g].mir and g not in ("rule::Rule::matches",))
+        except (KeyError, AttributeError):
+            pass
+        for s_ in [x for g in own_fns for x in panic.sites_of(F, g)]:
             if s_.kind == "index" and "true_" not in str(s_.detail):
                 pass
             located = panic.locate(F, s_, cache_)
